@@ -286,3 +286,21 @@ Qed.
 Theorem rule_length_is_ignored ident l1 l2 m1 m2 rest :
   QoSRules_UnmarshalBinary (ident :: l1 :: l2 :: rest) = QoSRules_UnmarshalBinary (ident :: m1 :: m2 :: rest).
 Proof. reflexivity. Qed.
+
+(* ---- the TS value ranges lie inside the domain of the theorems ---- *)
+Lemma ts_rule_in_domain r : ts_rule_ok r = true -> go_rule_ok r = true -> wf_rule r = true.
+Proof.
+  unfold ts_rule_ok, go_rule_ok, wf_rule, wf_rule_code. intros Ht Hg. btrue.
+  repeat (apply andb_true_iff; split); try (apply N.ltb_lt; lia); try (apply N.leb_le; lia);
+    try (apply Nat.leb_le; lia).
+  destruct (Operation r =? 5) eqn:E5.
+  - apply forallb_forall. intros pf Hpf.
+    rewrite forallb_forall in H1, H0. specialize (H1 pf Hpf). specialize (H0 pf Hpf).
+    unfold go_filter_ok in H0. rewrite E5 in H0. unfold wf_filter_del.
+    apply andb_true_iff in H0 as [Hd Hc]. rewrite H1, Hd, Hc. reflexivity.
+  - apply forallb_forall. intros pf Hpf.
+    rewrite forallb_forall in H1, H0, H4. specialize (H1 pf Hpf). specialize (H0 pf Hpf). specialize (H4 pf Hpf).
+    unfold go_filter_ok in H0. rewrite E5 in H0. unfold ts_filter_ok in H4. unfold wf_filter.
+    apply andb_true_iff in H0 as [Hc Hs]. rewrite H1, Hc, Hs. btrue.
+    replace (pf_Direction pf <? 16) with true by (symmetry; apply N.ltb_lt; lia). reflexivity.
+Qed.
